@@ -54,12 +54,18 @@ Definition check (c : case) : N :=
     let us := us_style cfg in
     let s := run (cfg_st cfg) ops in
     let pls := match o_plan with Ok l => l | _ => [] end in
-    let tgt := target_obs o_n o_en o_cus dev in
+    (* the channels a device cannot know are the appended ones: indices n0 .. n-1, n0 = size of
+       the band's own plan (the custom flag of the implementation is checked against that) *)
+    let n0 := zlen (up (cfg_st cfg)) in
+    let cus_spec := map (Z.add n0) (zrange (o_n - n0)) in
+    let tgt := target_obs o_n o_en cus_spec dev in
     code ((zlen (up s) =? o_n) && zlist_eqb (get_enabled_uplink_channel_indices s) o_en
           && zlist_eqb (get_custom_uplink_channel_indices s) o_cus
           && plan_eqb (plan us 16 s dev) o_plan
           && zs_eqb (apply us 16 s dev pls) o_apply)
          (is_ok o_plan && negb (is_panic o_apply)
+          (* every appended channel is custom, every channel of the band's own plan is not *)
+          && zlist_eqb o_cus cus_spec
           (* soundness, for every device list (entries outside the plan are dropped by the
              planner and ignored by apply); plans of more than 256 channels fail here: finding
              C14-2, matched by its key (n=...) *)
